@@ -64,7 +64,21 @@ type c20Result struct {
 }
 
 // session runs one script through Helios. serverCloses selects who closes at the end.
+// legal spellings of the upgrade handshake's Connection / Upgrade headers
+var c20Handshakes = []string{
+	"Connection: Upgrade\r\nUpgrade: websocket\r\n",
+	"Connection: keep-alive, Upgrade\r\nUpgrade: websocket\r\n",
+	"Connection: Upgrade, keep-alive\r\nUpgrade: websocket\r\n",
+	"Connection: keep-alive\r\nConnection: Upgrade\r\nUpgrade: websocket\r\n",
+	"connection: upgrade\r\nupgrade: WebSocket\r\n",
+	"Connection: UPGRADE\r\nUpgrade: websocket\r\n",
+}
+
 func c20Session(h *helios, be *wire.Backend, script []c20Step, serverCloses bool) (res c20Result) {
+	return c20SessionHS(h, be, script, serverCloses, 0)
+}
+
+func c20SessionHS(h *helios, be *wire.Backend, script []c20Step, serverCloses bool, hs int) (res c20Result) {
 	srvDone := make(chan string, 1)
 	be.Next(&wire.Script{Hijack: func(c net.Conn, rw *bufio.ReadWriter, r *http.Request) {
 		defer c.Close()
@@ -118,7 +132,7 @@ func c20Session(h *helios, be *wire.Backend, script []c20Step, serverCloses bool
 	}
 	defer c.Close()
 	c.SetDeadline(time.Now().Add(30 * time.Second))
-	fmt.Fprintf(c, "GET /ws HTTP/1.1\r\nHost: x.test\r\nConnection: Upgrade\r\nUpgrade: websocket\r\nSec-WebSocket-Version: 13\r\nSec-WebSocket-Key: dGhlIHNhbXBsZSBub25jZQ==\r\nX-API-Key: sesame\r\nAccept-Encoding: gzip\r\n\r\n")
+	fmt.Fprintf(c, "GET /ws HTTP/1.1\r\nHost: x.test\r\n"+c20Handshakes[hs]+"Sec-WebSocket-Version: 13\r\nSec-WebSocket-Key: dGhlIHNhbXBsZSBub25jZQ==\r\nX-API-Key: sesame\r\nAccept-Encoding: gzip\r\n\r\n")
 	br := bufio.NewReader(c)
 	line, err := br.ReadString('\n')
 	if err != nil || !strings.Contains(line, " 101 ") {
@@ -262,6 +276,18 @@ func TestVerifC20Tunnel(t *testing.T) {
 							kind = "close-not-propagated"
 						}
 						r.Violate("C20/tunnel/"+kind, fmt.Sprintf("%s: client: %s | server: %s", desc, res.clientErr, res.serverErr), len(sc)*10+len(chain), map[string]interface{}{"engine": "W", "test": "TestVerifC20Tunnel", "chain": chain, "script": sc, "server_closes": serverCloses})
+					}
+				}
+			}
+			// the other legal spellings of the handshake, one short session each
+			if pi == 0 && len(chain) <= 1 {
+				for hs := 1; hs < len(c20Handshakes); hs++ {
+					sc := []c20Step{{true, 125}}
+					res := c20SessionHS(h, be, sc, false, hs)
+					evals++
+					outs.Add(fmt.Sprintf("handshake%d/chain%d/%v", hs, len(chain), res.clientErr == "" && res.serverErr == ""))
+					if res.clientErr != "" || res.serverErr != "" {
+						r.Violate("C20/tunnel/upgrade-refused-for-legal-handshake/"+strings.Join(chain, ","), fmt.Sprintf("chain=%v handshake %q: client: %s | server: %s", chain, c20Handshakes[hs], res.clientErr, res.serverErr), len(chain), map[string]interface{}{"engine": "W", "test": "TestVerifC20Tunnel", "chain": chain, "handshake": hs})
 					}
 				}
 			}
